@@ -221,6 +221,12 @@ class CW(object):
         # cancel() on the derived future reaches the RetryFuture synchronously unless a throttle layer
         # sits above the retry layer (a queued ThrottleFuture has no delegate to forward to yet)
         above = self.layers[len(self.layers) - self.layers[::-1].index("retry"):] if "retry" in self.has else []
+        if true_rets and "poll" in self.has:
+            s = min(true_rets)
+            late = [e for e in evs if e[3] == "poll.shown" and e[0] > s and any("'target'" in r for r in e[4].get("results", []))]
+            if late:
+                res.violation("polled-after-cancel-true", "%s: the poll function was still shown the future's descriptor (seq %d) after cancel() had returned True (seq %d)"
+                              % (where, late[0][0], s))
         if "retry" in self.has and any_rets and "throttle" not in above:
             s = min(any_rets)
             # submissions arriving at the retry layer's own delegate (recording shim below it)
